@@ -115,6 +115,23 @@ def replay(prop_id, path):
         print("%s replay OK: %s" % (prop_id, path))
         return 0
 
+    if isinstance(case, dict) and case.get("kind") == "crash-task":
+        import multiprocessing
+
+        res, code = core.run_isolated(multiprocessing.get_context("spawn"), prop_id, assertions, case["task"])
+        if res is None:
+            print("VIOLATION property=%s replay=%s" % (prop_id, os.path.abspath(path)))
+            print("  clause: interpreter-crash")
+            print("  | the interpreter process running the task died (exit code %s)" % code)
+            return 1
+        viols = res["part"].get("violations") or []
+        if viols:
+            print("VIOLATION property=%s replay=%s" % (prop_id, os.path.abspath(path)))
+            print("  clause: %s" % viols[0]["clause"])
+            return 1
+        print("%s replay OK: %s" % (prop_id, path))
+        return 0
+
     def go(mod):
         acc = core.Acc()
         exc = acc.evaluate(mod.check_case, case, enumerated=True)
